@@ -25,7 +25,7 @@ def ext_source(j, pkgname, shared=False):
     txt = _EXT_SRC % dict(p=pkgname, j=j)
     if shared:
         import re
-        txt = re.sub(r"\b(Svc|Iface|Opt|Leaf|Cfg)%d\b" % j, r"\1", txt)
+        txt = re.sub(r"\b(Svc|Iface|Opt|Leaf|Cfg|NewSvc)%d\b" % j, r"\1", txt)    # the constructor of Svc is NewSvc
     return txt
 
 _EXT_SRC = """package %(p)s
@@ -76,6 +76,12 @@ def gen_case(rng):
         f2 = (u["file"] + 1) % nfiles
         k2 = {"fn": "struct", "val": "fn", "bind": "val", "struct": "fn", "ival": "val", "fieldsof": "val"}[u["kind"]]
         uses.append(dict(pkg=u["pkg"], kind=k2, file=f2, second=True))
+    shared = rng.chance(0.5)
+    # sometimes: FieldsOf on two structs of different packages in one element list (with shared type names both are `Cfg`)
+    if rng.chance(0.25):
+        a, b = rng.choice([(0, 1), (0, 1), (2, 5), (0, 4)])
+        uses = [u for u in uses if u["pkg"] not in (a, b)] + [dict(pkg=a, kind="fieldsof", file=0), dict(pkg=b, kind="fieldsof", file=0)]
+        shared = shared or rng.chance(0.7)
     # local names per (file, package)
     names = {}
     for f in range(nfiles):
@@ -102,7 +108,7 @@ def gen_case(rng):
                 nm, explicit = "y%d" % u["pkg"], True
             taken.add(nm)
             names[(f, u["pkg"])] = (nm, explicit)
-    return dict(uses=uses, nfiles=nfiles, names={"%d:%d" % k: v for k, v in names.items()}, order=rng.randint(0, 1), shared=rng.chance(0.5))
+    return dict(uses=uses, nfiles=nfiles, names={"%d:%d" % k: v for k, v in names.items()}, order=rng.randint(0, 1), shared=shared)
 
 def describe(case):
     return " ".join("%s:%s@f%d as %s%s" % (CATALOGUE[u["pkg"]][0], u["kind"], u["file"], case["names"]["%d:%d" % (u["file"], u["pkg"])][0],
@@ -123,7 +129,7 @@ def items(u, q):
     if k == "bind":
         return ["%s.NewSvc%d" % (q, j), "wire.Bind(new(%s.Iface%d), new(*%s.Svc%d))" % (q, j, q, j)]
     if k == "struct":
-        return ['wire.Struct(new(%s.Opt%d), "*")' % (q, j)]
+        return ['wire.Struct(new(%s.Opt%d))' % (q, j)]       # no fields injected (Opt's only field is an int nobody provides)
     if k == "ival":
         return ["wire.InterfaceValue(new(%s.Iface%d), %s.TheSvc%d)" % (q, j, q, j)]
     if k == "fieldsof":
@@ -193,7 +199,7 @@ def render(case, prefix, pkgname):
         import re
         for rel in list(files):
             if rel.startswith(pkgname + "/"):
-                files[rel] = re.sub(r"\b(Svc|Iface|Opt|Leaf|Cfg)\d+\b", r"\1", files[rel])
+                files[rel] = re.sub(r"\b(Svc|Iface|Opt|Leaf|Cfg|NewSvc)\d+\b", r"\1", files[rel])
     return files, dict(wire_files=wire_files, sets=sets, uses=uses)
 
 # ------------------------------------------------------------------------------------------------ failure kinds
